@@ -1,10 +1,11 @@
 import Nstd.Generated.HashLink
+import Nstd.Generated.HashConst
 /-
   The two-table machine of `PtrModel.lean` (`pstep`) with the bodies TRANSLATED from the current headers
   (`Nstd/Generated/HashLink.lean`, tools/gen_hash.py) in place of the hand-written ones, for every operation whose member is
   translated: append / prepend / insert (→ `insert`), remove by key / iterator / value address, removeFront / removeBack,
-  clear, swap, find, contains, size, isEmpty, front, back, assignment, HashSet bulk append / remove, `==` / `!=`.  the self-argument members.  The remaining operations
-  (constructors incl. the copy constructor, value update, the iterator walks of the queries) are those of `pstep`.  `PropsLink.lean` proves `gstep = pstep` on every
+  clear, swap, find, contains, size, isEmpty, front, back, assignment, HashSet bulk append / remove, `==` / `!=`.  the self-argument members, the three constructors.  The remaining
+  operations (value update, the iterator walks of the queries) are those of `pstep`.  `PropsLink.lean` proves `gstep = pstep` on every
   state that represents a model state, hence the refinement theorems hold of this machine.
 -/
 namespace Nstd.Hash.Ptr
@@ -69,6 +70,12 @@ def gEqual (kind : Kind) (h : Nat → Nat) (t o : PTable) : Option Bool :=
   | .map => (HashLink.HashMap.equal h t o).map (·.2)
   | .set => (HashLink.HashSet.equal h t o).map (·.2)
   | .pool => PTable.equal kind t o                 -- PoolMap has no `operator==` (rejected)
+
+/-- the capacity of the default / copy constructor as the current header has it -/
+def dcapOf : Kind → Nat
+  | .map => Nstd.Generated.Hash.defaultCapacityMap
+  | .set => Nstd.Generated.Hash.defaultCapacitySet
+  | .pool => Nstd.Generated.Hash.defaultCapacityPool
 
 /-- result of an `insert`-based operation: the returned iterator designates an item -/
 def insertOut (kind : Kind) (s : PState) (t : Bool) (r : Option (PTable × Nxt)) (o : PTable → Nat → Option Out) : Option (PState × Out) :=
@@ -196,6 +203,22 @@ def gstep (kind : Kind) (h : Nat → Nat) (s : PState) (op : Op) : Option (PStat
     optSet s t (if kind = Kind.set then HashLink.HashSet.appendSelf h (s.get t) else PTable.appendSelf kind h (s.get t)) .unit
   | .removeSelf t =>
     optSet s t (if kind = Kind.set then HashLink.HashSet.removeSelf h (s.get t) else PTable.removeSelf h (s.get t)) .unit
+  | .construct t cap =>
+    -- the translated constructor on the raw storage of the object (the translator checks that every member is initialised)
+    optSet s t (match kind with
+      | .map => HashLink.HashMap.construct h (PTable.fresh t 0 (s.get t).ipb (s.get t).dcap) cap
+      | .set => HashLink.HashSet.construct h (PTable.fresh t 0 (s.get t).ipb (s.get t).dcap) cap
+      | .pool => HashLink.PoolMap.construct h (PTable.fresh t 0 (s.get t).ipb (s.get t).dcap) cap) .unit
+  | .constructDefault t =>
+    optSet s t (match kind with
+      | .map => HashLink.HashMap.constructDefault h (PTable.fresh t 0 (s.get t).ipb (s.get t).dcap)
+      | .set => HashLink.HashSet.constructDefault h (PTable.fresh t 0 (s.get t).ipb (s.get t).dcap)
+      | .pool => HashLink.PoolMap.constructDefault h (PTable.fresh t 0 (s.get t).ipb (s.get t).dcap)) .unit
+  | .copyFrom t =>
+    optSet s t (match kind with
+      | .map => HashLink.HashMap.copyConstruct h (PTable.fresh t 0 (s.get (!t)).ipb (s.get (!t)).dcap) (s.get (!t))
+      | .set => HashLink.HashSet.copyConstruct h (PTable.fresh t 0 (s.get (!t)).ipb (s.get (!t)).dcap) (s.get (!t))
+      | .pool => PTable.copyOf kind h t (s.get (!t))) .unit        -- PoolMap's copy constructor is private (rejected)
   | op => pstep kind h s op
 
 def grun (kind : Kind) (h : Nat → Nat) : PState → List Op → Option (PState × List Out)
